@@ -51,9 +51,15 @@ def judge_exp(rec, dt, x, k, r, c, mp, cls):
     if abs(rc) > mp.mpf("0.55") * mp.ln2:
         rec.violation("exp:remainder-bound", dict(w, remainder_over_ln2=float(abs(rc) / mp.ln2)))
     recon = mp.mpf(int(k)) * mp.ln2 + rc
-    d = abs(rn(recon, f) - exact.ordinal(dt(x)))
-    if d > 1:
-        rec.violation("exp:reconstruction", dict(w, ulps=int(d)))
+    # "equal to x to within 1 ULP of x": the real-valued error against the spacing of x (comparing *rounded* values by lattice steps would
+    # accept up to 1.5 ULP - a seeded float16 ln2 constant error of 1.23 ULP hid there)
+    xm = mp_of(mp, x)
+    ax = abs(xm)
+    ex = max(int(mp.floor(mp.log(ax, 2))), f.emin) if ax != 0 else f.emin
+    ulp_x = mp.ldexp(mp.mpf(1), ex - f.p + 1)
+    err = abs(recon - xm) / ulp_x
+    if err > 1:
+        rec.violation("exp:reconstruction", dict(w, error_in_ulps_of_x=float(err)))
     rec.cls("exp", numpy.dtype(dt).name, int(k), cls)
 
 
@@ -77,11 +83,14 @@ def judge_trig(rec, dt, x, k, r, t, mp, cls):
     n = mp.nint(q)
     true_rem = xm - (4 * n + int(k)) * pi2  # the exact remainder for this k (nearest multiple of 2*pi removed)
     d = abs(rn(true_rem, f) - rn(rt, f))
-    if d > TRIG_ULP[f.bits]:
+    atr = abs(true_rem)
+    etr = max(int(mp.floor(mp.log(atr, 2))), f.emin) if atr != 0 else f.emin
+    err_ulps = abs(rt - true_rem) / mp.ldexp(mp.mpf(1), etr - f.p + 1)  # real-valued error in ULPs of the remainder (see judge_exp)
+    if err_ulps > TRIG_ULP[f.bits]:
         # absolute error relative to |x| * (smallest subnormal): the accuracy the dtype's own 2/pi multiword (words down to the smallest subnormal) can give
         ratio = float(abs(rt - true_rem) / (abs(xm) * mp.ldexp(mp.mpf(1), f.emin - f.p + 1)))
         ae = abs(rt - true_rem)
-        rec.violation("trig:reconstruction", dict(w, ulps=int(d), true_remainder=float(true_rem), abs_error_over_x_times_smallest_subnormal=ratio,
+        rec.violation("trig:reconstruction", dict(w, ulps=int(d), error_in_ulps_of_remainder=float(err_ulps), true_remainder=float(true_rem), abs_error_over_x_times_smallest_subnormal=ratio,
                                                   log2_abs_error=float(mp.log(ae, 2)) if ae != 0 else -1e9, log2_abs_true_remainder=float(mp.log(abs(true_rem), 2)) if true_rem != 0 else -1e9))
     with numpy.errstate(all="ignore"):
         e = int(numpy.frexp(numpy.float64(x))[1])
